@@ -24,6 +24,46 @@ CHECKS = {
     ),
 }
 
+CORE_NOTE = ("Trusted: TLC, the harness' normalisation of sequence numbers/clock, the independent wire parser, the verif-tag "
+             "projections and flush hooks, testing/synctest's virtual clock. Exhaustive only inside the small TLC instances; "
+             "the code is bound by replay (projection compared per step) and by trace validation of seeded random runs.")
+CHECKS.update({
+    "C01": dict(
+        category="model_checking",
+        text=("KcpCore.tla transcribes kcp.go (Send/Recv/Input/flush/Update/Check with the code's integer arithmetic); KcpNet.tla closes it "
+              "with a lossy/duplicating/reordering network. TLC checks Prefix/MsgPrefix exhaustively on small instances (stream, message, "
+              "fast modes). TLC-generated behaviours and goal-directed witnesses are replayed on two real KCP objects under virtual "
+              "time with the full projected state compared per step; every Recv's bytes are checked against the writer's stream; "
+              "recorded traces (replays + seeded random lossy runs) are validated by TLC: KcpObs monitors decide, KcpCoreTrace "
+              "conformance reports drift."),
+        design_ref="§4 C01, §3.2", note=CORE_NOTE + " Raw-core level in this round; session level is covered by the session checks.",
+        technique="TLA+ spec of the ARQ core + TLC; behaviour replay with per-step state comparison; TLC trace validation"),
+    "C04": dict(
+        category="model_checking",
+        text=("The C04 bounds are invariants of KcpNet.tla checked by TLC including forged-segment steps (boundary classes of sn/una/wnd/ts); "
+              "admission is checked at the flush hook (segments admitted vs. min(snd_wnd, rmt_wnd, cwnd)); the same formulas are "
+              "evaluated by TLC on the state observed after every API call and datagram of replayed and random runs of the real core. "
+              "One corner of the 'nothing new after a timeout loss' clause fails on the pinned code and is a listed known finding."),
+        design_ref="§4 C04, §3.2", note=CORE_NOTE,
+        technique="TLA+ invariants + TLC incl. adversarial Forge action; monitors over observed state via TLC trace validation"),
+    "C12": dict(
+        category="model_checking",
+        text=("Design level: KcpNet is model-checked in a scaled sequence/clock space (Mod=4096) with offsets that make sn and clock wrap "
+              "mid-run. Code level: every generated behaviour is executed at offset 0 and at offsets near 2^31/2^32; the normalised "
+              "observations (returns, every datagram header field, full state) are paired and TLC requires them identical, and both "
+              "runs must conform to the offset-free specification."),
+        design_ref="§4 C12", note=CORE_NOTE + " FEC sequence-id wrap is covered by the FEC checks.",
+        technique="TLC on a scaled modular space; metamorphic replay (shifted vs unshifted) judged by a TLC pair monitor"),
+    "C18": dict(
+        category="model_checking",
+        text=("Clean-path instance of KcpNet (FIFO, no loss, reader keeps up) model-checked for 'xmit <= 1, no retransmission counted'; "
+              "RtoBounds is part of the endpoint invariant in all instances incl. forged ACK timestamps and 30 s outages. On the code: "
+              "event-driven clean runs in virtual time (both drives, random delays/intervals satisfying the precondition) and forged-ACK "
+              "runs, judged by C18 monitors via TLC."),
+        design_ref="§4 C18", note=CORE_NOTE,
+        technique="TLA+ clean-path instance + TLC; virtual-time clean runs validated by TLC monitors"),
+})
+
 NOT_YET = {}
 
 
